@@ -25,7 +25,7 @@ ASSUMPTIONS = [
 RELAXED = {"?": 12}
 TIGHT = {"C": 4, "N": 2, "Fe": 1, "H": 1, "Cl": 0, "?": 3}
 ISO = ["", "0", "13", "235"]
-ELEM = ["C", "N", "Fe", "H", "Cl"]
+ELEM = ["C", "N", "Fe", "H", "Cl", "B", "O", "S", "P", "F", "Br", "I"]
 CHIR = ["", "@", "@@"]
 HS = ["", "H", "H0", "H1", "H4", "H5", "H9"]
 CHG = ["", "+", "++", "+2", "+10", "-", "---", "-3", "+0", "-20"]
